@@ -91,6 +91,9 @@ def generate(family, rng, tier):
             reqs.append({"name": name, "n": n, "reuse": rng.random() < 0.2})
         if kind == "irq" and n_locs <= 8:
             reqs += [{"name": "x%d" % i, "n": None, "reuse": False} for i in range(rng.randint(0, n_locs + 1))]
+        if rng.random() < 0.25:
+            # locations reserved at construction (reserved_csrs= / reserved_irqs=): the same rules apply to them
+            p["reserved"] = [["r%d" % i, rng.choice([rng.randrange(n_locs), rng.randrange(n_locs), 0, n_locs - 1, n_locs, n_locs + 8, 2])] for i in range(rng.randint(1, 3))]
         return {"family": family, "params": p, "reqs": reqs}
     if family == "names":
         # several clients declare constants / configuration names on one SoC: names are published in upper case, so two
@@ -259,16 +262,33 @@ def run_locs(scn):
     p = scn["params"]
     viols = []
     V = mkV(viols)
-    if p["kind"] == "csr":
-        h = SoCCSRHandler(data_width=p["data_width"], address_width=p["address_width"], paging=p["paging"])
-        n_locs = 4 * (2 ** p["address_width"]) // p["paging"]
-    else:
-        h = SoCIRQHandler(n_irqs=p["n_irqs"])
-        h.enable()
-        n_locs = p["n_irqs"]
+    reserved = {k: v for k, v in p.get("reserved", [])}
     accepted = rejected = 0
     checks = 0
     boundary = 0
+    try:
+        if p["kind"] == "csr":
+            n_locs = 4 * (2 ** p["address_width"]) // p["paging"]
+            h = SoCCSRHandler(data_width=p["data_width"], address_width=p["address_width"], paging=p["paging"], reserved_csrs=reserved)
+        else:
+            n_locs = p["n_irqs"]
+            h = SoCIRQHandler(n_irqs=p["n_irqs"], reserved_irqs=reserved)
+            h.enable()
+    except SoCError:
+        if sys.stderr is None:
+            sys.stderr = sys.__stderr__
+        # rejected at construction: nothing is built. (The property demands that what is granted is sound, not that every legal request
+        # is granted: on the pinned tree SoCIRQHandler rejects ANY reservation, because it adds them before the handler is enabled.)
+        return {"violations": [], "digest": "rejected-at-construction", "stats": {"checks": 1, "nontrivial": False, "faults": {"req_order": 0},
+                                                                                     "probes": {"rejected": 1, "reserved_rejected": 1}, "cycles": 0}}
+    if reserved:
+        vals = list(h.locs.values())
+        checks += 2
+        if len(set(vals)) != len(vals):
+            V("location_granted_twice", p["kind"], "reserved locations %r: one location granted to several names: %s" % (reserved, dict(h.locs)))
+        bad = {k: v for k, v in h.locs.items() if not (0 <= v < n_locs)}
+        if bad:
+            V("location_out_of_range", p["kind"], "reserved location outside [0,%d): %s" % (n_locs, bad))
     for rq in scn["reqs"]:
         before = dict(h.locs)
         try:
